@@ -387,11 +387,6 @@ pub fn integer_complete(d: &FmtDesc, s: &[u8], signed: bool) -> IntGram {
     if had_prefix && d.no_integer_leading_zeros {
         return IntGram::Unspecified;
     }
-    if had_suffix && digits.len() < 2 {
-        // the parser documents "need at least 1 digit" before a suffix but requires 2 bytes
-        // of distance; single digit + suffix is not documented consistently
-        return IntGram::Unspecified;
-    }
     IntGram::Number(neg, digits)
 }
 
